@@ -5,5 +5,6 @@ CONSTANTS
   ArchCols <- DefArchCols
   Empty <- NoneEmpty
   Ents <- TwoEnts
+  ZstCols <- DefZst
 INVARIANTS CellsMatchStack NoAliasing FreeAtRest Export
 CHECK_DEADLOCK FALSE
